@@ -69,6 +69,7 @@ class Profile:
         self.inject_first_p = 0.0
         self.mask_choices = [1, 2, 4, 8, 3, 6, 2, 2, 1]
         self.mbtns = [0, 1]
+        self.script_kinds = [0, 0, 1, 2, 3]   # condition kinds of the scripted conditions (0 explicit 1 implicit 2 blocker 3 events-only)
         self.log_raw_p = 0.0           # probability that an input gets a logging identity modifier first
         for k, v in kw.items():
             if not hasattr(self, k):
@@ -126,7 +127,7 @@ class AppGen:
         if k == "blockby":
             return f"blockby {self.ref_action(ctx_actions)} {r.choice([0, 1])}"
         if k == "sscript":
-            kind = r.choice([0, 0, 1, 2, 3])
+            kind = r.choice(self.p.script_kinds)
             n = r.randint(1, 6)
             if kind >= 2:
                 rs = [r.choice([0, 2, 2, 2]) for _ in range(n)]
@@ -134,7 +135,7 @@ class AppGen:
                 rs = [r.choice([0, 1, 2]) for _ in range(n)]
             return f"sscript {kind} " + " ".join(map(str, rs))
         if k == "sact":
-            kind = r.choice([0, 0, 1, 2, 3])
+            kind = r.choice(self.p.script_kinds)
             return f"sact {kind} {r.choice([1, 2, 2])} {r.choice([0, 0, 1])}"
         raise KeyError(k)
 
